@@ -34,6 +34,10 @@ Example C16_negative : String_ (-1) = Ret (bytes_of_string "Language(-1)"). Proo
 Theorem C16_callees : reach_ok "Language.String" = true /\ reach_ok "Language.list" = true /\ reach_ok "Language.mapping" = true.
 Proof. exact calls_lang. Qed.
 
+(* the exported functions and methods of the package are exactly the six modelled entry points; Language is int *)
+Theorem C16_public_surface : exported_api_ok = true.
+Proof. exact exported_api_ok_holds. Qed.
+
 Print Assumptions C16_names.
 Print Assumptions C16_supported.
 Print Assumptions C16_other.
